@@ -147,9 +147,11 @@ def specOp (sp : Spec) (w : List String) (o : StepObs) : Except String Spec := d
   | ["drain"] =>
     match o.wire with
     | some (n, h) =>
-      if n ≠ sp.acc.length ∨ h ≠ toString (fnv sp.acc) then
-        throw s!"peer read {n} bytes (hash {h}); the FIFO concatenation of what the OS accepted has {sp.acc.length} bytes (hash {fnv sp.acc})"
-      pure { sp with acc := [] }
+      -- the peer may lag behind the OS (it read fewer bytes than were accepted so far): what it read must be
+      -- exactly the next bytes of the FIFO concatenation; the rest stays expected
+      if n > sp.acc.length ∨ h ≠ toString (fnv (sp.acc.take n)) then
+        throw s!"peer read {n} bytes (hash {h}); the FIFO concatenation of what the OS accepted continues with {sp.acc.length} bytes (hash of the first {min n sp.acc.length}: {fnv (sp.acc.take n)})"
+      pure { sp with acc := sp.acc.drop n }
     | none => throw "missing wire observation"
   | ["peerclose"] => pure { sp with peerClosed := true }
   | ["destroy"] =>
@@ -313,10 +315,11 @@ partial def corrPass (c : CSt) : List String → Verdict
       | ["drain"] =>
         match o.wire with
         | some (n, h) =>
-          let seg := c.m.wire.drop c.drained
+          let seg := (c.m.wire.drop c.drained).take n
           if n ≠ seg.length ∨ h ≠ toString (fnv seg) then
-            Verdict.corr s!"after '{l}': peer read {n} bytes hash {h}, model wire segment {seg.length} bytes hash {fnv seg}" c.tags
-          else corrPass { c with drained := c.m.wire.length, tags := "drain" :: c.tags } rest'
+            Verdict.corr s!"after '{l}': peer read {n} bytes hash {h}, model wire continues with {(c.m.wire.drop c.drained).length} bytes (hash of that prefix {fnv seg})" c.tags
+          else corrPass { c with drained := c.drained + n,
+                                 tags := (if c.drained + n < c.m.wire.length then ["drain", "drain.lag"] else ["drain"]) ++ c.tags } rest'
         | none => Verdict.corr s!"after '{l}': missing wire observation" c.tags
       | ["peerclose"] => corrPass { c with peerClosed := true } rest'
       | ["destroy"] =>
